@@ -345,9 +345,11 @@ pub fn run(args: &Args) -> ! {
     raws.sort_by_cached_key(|(c, r, f)| (f.class.clone(), c.ops.len(), c.texts.len(), c.configs[0].to_string(), serde_json::to_string(&c.to_json()).unwrap(), r.clone()));
     let mut per: BTreeMap<String, Vec<(Case, String, Finding)>> = BTreeMap::new();
     for x in raws {
-        per.entry(x.2.class.clone()).or_default().push(x);
+        // one group per (oracle, require string): different require strings never mask each other
+        per.entry(format!("{}\u{1}{}", x.2.class, x.1)).or_default().push(x);
     }
-    for (class, v) in per {
+    for (group, v) in per {
+        let class = group.split('\u{1}').next().unwrap_or("").to_string();
         let total = v.len() as u64;
         let mut first_key = None;
         for (case, r, f) in v.iter().take(3) {
